@@ -49,6 +49,7 @@ type blockRec struct {
 	gasRewards *big.Int
 	subsidy    *big.Int
 	gasLimit   uint64
+	evidence   []int                    // main-address ids of validators against whom forged evidence was put into this block's SlashData, in order
 	stateErr   string                   // error recorded by the builder's StateDB in this block ("" normally)
 	dropped    *big.Int                 // value detained by successful create/deposit/delegation-add txs of this block whose hash is in no persisted pending record
 	effective  []chainkit.PendingRecord // records that took effect in this block (period end), in trie order
@@ -174,10 +175,22 @@ func (s *session) runBlock(bl []string) error {
 		}
 		br := blockRec{num: work.Header.Number.Uint64(), cbKey: cbKey, burnt: new(big.Int), lines: bl, gasLimit: work.Header.GasLimit}
 		k2alive := len(work.State.GetCode(k2)) > 0
+		var evs []staking.Evidence
 		for _, l := range bl[1:] {
 			o, err := parseOp(l)
 			if err != nil {
 				return err
+			}
+			if o.kind == "EV" {
+				vk := o.user()
+				if vk < 0 || vk >= maxValKeys {
+					continue
+				}
+				if ev, ok := w.forgeEvidence(vk, br.num-1); ok {
+					evs = append(evs, ev)
+					br.evidence = append(br.evidence, idMain+vk)
+				}
+				continue
 			}
 			nonces := map[common.Address]uint64{}
 			if u := o.user(); u >= 0 && u < w.users {
@@ -262,7 +275,11 @@ func (s *session) runBlock(bl []string) error {
 			rr.blocks = append(rr.blocks, br)
 			return nil
 		}
-		built, err := work.Finish(nil)
+		var slashData []byte
+		if len(evs) > 0 {
+			slashData = encodeSlashData(evs)
+		}
+		built, err := work.Finish(slashData)
 		if err != nil {
 			return err
 		}
